@@ -22,3 +22,10 @@ Theorem C14_two_imports_indistinguishable : forall bad text d1 d2 h,
   loads bad text = IOk d1 -> loads bad text = IOk d2 -> snd (run d1 h) = snd (run d2 h).
 Proof. exact two_imports_indistinguishable. Qed.
 Print Assumptions C14_two_imports_indistinguishable.
+
+(* obligation regenerated from the source on every run: the code this property runs through keeps exactly the state the
+   model knows (no new attribute, class-level table, module-level binding or caching decorator), see proofs/State*Proofs.v *)
+From KV Require Import StateGen StateBase StateExportProofs StateTokensProofs StateDocumentProofs.
+Theorem C14_state_as_modelled : state_export = modelled_state_export /\ state_tokens = modelled_state_tokens /\ state_document = modelled_state_document.
+Proof. exact (conj state_export_as_modelled (conj state_tokens_as_modelled state_document_as_modelled)). Qed.
+Print Assumptions C14_state_as_modelled.
